@@ -1169,6 +1169,175 @@ fn dump() -> Value {
 // main
 // ------------------------------------------------------------------------------------------
 
+// ------------------------------------------------------------------------------------------
+// hunt: native bounded-exhaustive search for a failing input (used after a proof/correspondence
+// break, and by the thorough tiers). Enumerates structured families of test-case sets in-process
+// (no JSON per case), judges each with a cheap implementation-side oracle and prints only the hits
+// as ordinary cases; the caller re-judges every hit through the normal pipeline (PikeVM, model,
+// known-finding classes). A search tool, never a proof.
+// ------------------------------------------------------------------------------------------
+
+fn words_upto(alpha: &[char], maxlen: usize) -> Vec<String> {
+    let mut out: Vec<String> = vec![];
+    let mut layer: Vec<String> = vec![String::new()];
+    for _ in 0..maxlen {
+        let mut next = vec![];
+        for w in &layer {
+            for &c in alpha {
+                let mut x = w.clone();
+                x.push(c);
+                next.push(x);
+            }
+        }
+        out.extend(next.iter().cloned());
+        layer = next;
+    }
+    out
+}
+
+fn combos(n: usize, k: usize) -> Vec<Vec<usize>> {
+    fn rec(start: usize, n: usize, k: usize, cur: &mut Vec<usize>, out: &mut Vec<Vec<usize>>) {
+        if cur.len() == k {
+            out.push(cur.clone());
+            return;
+        }
+        for i in start..n {
+            cur.push(i);
+            rec(i + 1, n, k, cur, out);
+            cur.pop();
+        }
+    }
+    let mut out = vec![];
+    rec(0, n, k, &mut vec![], &mut out);
+    out
+}
+
+/// one hit-test; Some(kind) when the implementation's output fails the oracle on this set
+fn hunt_judge(tcs: &[String], f: &Flags, oracle: &str, eng: &Engine) -> Option<String> {
+    let out = match plain_build(tcs, f) {
+        Ok(o) => o,
+        Err(m) => return Some(format!("panic: {m}")),
+    };
+    let re = match regex::Regex::new(&anchored_whole(&out)) {
+        Ok(r) => r,
+        Err(_) => return Some("does not compile".into()),
+    };
+    // anchored on both sides: is_match is a whole-string match
+    for t in tcs {
+        if !re.is_match(t) {
+            return Some("unmatched".into());
+        }
+    }
+    if oracle == "lang" {
+        let spec = eng.spec(f, tcs);
+        if let Ok(Some(_)) = lang_diff(&out, &spec) {
+            return Some("lang".into());
+        }
+    }
+    None
+}
+
+fn hunt(cfg: &Value) -> Value {
+    let family = cfg["family"].as_str().unwrap_or("sib").to_string();
+    let alpha: Vec<char> = cfg["alpha"].as_str().unwrap_or("abc").chars().collect();
+    let oracle = cfg["oracle"].as_str().unwrap_or("unmatched").to_string();
+    let budget = std::time::Duration::from_secs_f64(cfg["budget_s"].as_f64().unwrap_or(30.0));
+    let max_hits = cfg["max_hits"].as_u64().unwrap_or(20) as usize;
+    let nthreads: usize = std::env::var("GREXV_THREADS").ok().and_then(|s| s.parse().ok()).unwrap_or(16);
+    let f = parse_flags(cfg);
+    let eng = Engine::new();
+    let t0 = std::time::Instant::now();
+    let count = std::sync::atomic::AtomicU64::new(0);
+    let timed_out = std::sync::atomic::AtomicBool::new(false);
+    let hits: std::sync::Mutex<Vec<(Vec<String>, String)>> = std::sync::Mutex::new(vec![]);
+    // outer work items; every thread takes the items with index = thread (mod nthreads)
+    let maxlen = cfg["maxlen"].as_u64().unwrap_or(3) as usize;
+    let kmax = cfg["kmax"].as_u64().unwrap_or(3) as usize;
+    let base = words_upto(&alpha, maxlen);
+    let ext = words_upto(&alpha, maxlen + 1);
+    let outer: Vec<Vec<usize>> = match family.as_str() {
+        // sib: two sibling branches x·S and y·S over a common pool S (2..kmax suffixes), optionally the prefixes
+        // themselves, plus ONE extra word in one branch (any suffix up to maxlen+1): the shape on which a wrong
+        // merge of two almost-equivalent states loses or adds a word
+        "sib" => (2..=kmax).flat_map(|k| combos(base.len(), k)).collect(),
+        // sub: every subset with 2..kmax elements of the words up to maxlen
+        _ => (2..=kmax).flat_map(|k| combos(base.len(), k)).collect(),
+    };
+    let total_outer = outer.len();
+    let done_outer = std::sync::atomic::AtomicUsize::new(0);
+    std::thread::scope(|sc| {
+        for th in 0..nthreads {
+            let (outer, base, ext, f, eng, hits, count, timed_out, oracle, family, done_outer) =
+                (&outer, &base, &ext, &f, &eng, &hits, &count, &timed_out, &oracle, &family, &done_outer);
+            sc.spawn(move || {
+                let mut i = th;
+                'outer: while i < outer.len() {
+                    if t0.elapsed() > budget {
+                        timed_out.store(true, std::sync::atomic::Ordering::SeqCst);
+                        break;
+                    }
+                    let pool: Vec<&String> = outer[i].iter().map(|&j| &base[j]).collect();
+                    let mut try_set = |tcs: Vec<String>| -> bool {
+                        count.fetch_add(1, std::sync::atomic::Ordering::Relaxed);
+                        let r = catch_unwind(AssertUnwindSafe(|| hunt_judge(&tcs, f, oracle, eng)))
+                            .unwrap_or_else(|e| Some(format!("harness panic: {}", panic_msg(e))));
+                        if let Some(kind) = r {
+                            let mut h = hits.lock().unwrap();
+                            h.push((tcs, kind));
+                            return h.len() >= max_hits;
+                        }
+                        false
+                    };
+                    if family == "sib" {
+                        for with_prefixes in [false, true] {
+                            let mut common: Vec<String> = vec![];
+                            for p in ["x", "y"] {
+                                if with_prefixes {
+                                    common.push(p.to_string());
+                                }
+                                for s in &pool {
+                                    common.push(format!("{p}{s}"));
+                                }
+                            }
+                            for e in ext.iter() {
+                                for p in ["x", "y"] {
+                                    let w = format!("{p}{e}");
+                                    if common.contains(&w) {
+                                        continue;
+                                    }
+                                    let mut tcs = common.clone();
+                                    tcs.push(w);
+                                    if try_set(tcs) {
+                                        break 'outer;
+                                    }
+                                }
+                            }
+                        }
+                    } else {
+                        let tcs: Vec<String> = pool.iter().map(|s| (*s).clone()).collect();
+                        if try_set(tcs) {
+                            break 'outer;
+                        }
+                    }
+                    done_outer.fetch_add(1, std::sync::atomic::Ordering::Relaxed);
+                    i += nthreads;
+                }
+            });
+        }
+    });
+    let hits = hits.into_inner().unwrap();
+    let to = timed_out.load(std::sync::atomic::Ordering::SeqCst);
+    json!({
+        "family": family, "alpha": alpha.iter().collect::<String>(), "oracle": oracle, "f": cfg["f"], "mr": f.mr, "ms": f.ms,
+        "maxlen": maxlen, "kmax": kmax,
+        "evaluated": count.load(std::sync::atomic::Ordering::SeqCst),
+        "outer_total": total_outer, "outer_done": done_outer.load(std::sync::atomic::Ordering::SeqCst),
+        "exhaustive": !to && hits.len() < max_hits,
+        "elapsed_s": t0.elapsed().as_secs_f64(),
+        "hits": hits.iter().map(|(tcs, kind)| json!({"tcs": tcs.iter().map(|t| cps(t)).collect::<Vec<_>>(), "kind": kind})).collect::<Vec<_>>(),
+    })
+}
+
 fn main() {
     std::panic::set_hook(Box::new(|_| {}));
     let args: Vec<String> = std::env::args().collect();
@@ -1274,6 +1443,15 @@ fn main() {
                     Ok(st) => writeln!(w, "{}", json!({"state": st})).unwrap(),
                     Err(e) => writeln!(w, "{}", json!({"panic": panic_msg(e)})).unwrap(),
                 }
+            }
+        }
+        "hunt" => {
+            // one JSON configuration per line; one JSON result per line
+            for l in stdin.lock().lines() {
+                let l = l.unwrap();
+                if l.trim().is_empty() { continue; }
+                let cfg: Value = serde_json::from_str(&l).expect("hunt json");
+                writeln!(w, "{}", hunt(&cfg)).unwrap();
             }
         }
         "setters" => {
